@@ -185,6 +185,20 @@ func (u *Unit) external(st *State, fr *Frame, in *ssa.Call, fn *ssa.Function, ar
 		}
 	case "encoding/binary":
 		return u.binaryModel(st, fr, in, fn, args)
+	case "github.com/go-i2p/crypto/ed25519":
+		// static call of a helper-object constructor on a key of the
+		// dependency (key.NewSigner() / key.NewVerifier() on a concrete type)
+		if fn.Signature.Recv() != nil && strings.HasPrefix(fn.Name(), "New") && len(args) >= 1 {
+			rt0 := fn.Signature.Recv().Type()
+			if obj := fn.Object(); obj != nil {
+				if mf, ok := obj.(*types.Func); ok {
+					if res, ok := u.newObjModel(st, IfaceV{Nil: TFalse, Dyn: rt0, V: args[0]}, mf); ok {
+						return res, true
+					}
+				}
+			}
+		}
+		return nil, false
 	case "github.com/go-i2p/crypto/elg", "github.com/go-i2p/crypto/dsa":
 		// A-CRYPTO: NewElgPublicKey / NewDSAPublicKey accept exactly 256 / 128
 		// bytes whose value passes a range test (uninterpreted), and return a
@@ -570,6 +584,13 @@ func (u *Unit) newObjModel(st *State, recv IfaceV, m *types.Func) (Val, bool) {
 	if recv.Dyn != nil && recv.Dyn.String() == "github.com/go-i2p/crypto/ed25519.Ed25519PublicKey" && m.Name() == "NewVerifier" {
 		// A-DEP-ED25519 (read from the pinned dependency): never fails
 		okb = TTrue
+	}
+	if isDepEd25519Priv(recv) && m.Name() == "NewSigner" {
+		// A-DEP-ED25519: fails exactly when the key is not 64 bytes long
+		if kv, ok := depEd25519PrivBytes(u, st, recv); ok {
+			_, _, l := u.seqOf(st, kv)
+			okb = Eq(l, IntLit(64))
+		}
 	}
 	obj := IfaceV{Nil: Not(okb), Opq: u.newInt("obj")}
 	er := IfaceV{Nil: okb, Opq: u.newInt("objerr")}
